@@ -1,4 +1,5 @@
 (** Proofs about the Challenge model (C15). *)
+From Coq Require Import ZifyBool ZifyN.
 From CM Require Import Lib.Str Gen.Consts Challenge.Assoc Challenge.Model.
 
 (** * Boolean equalities *)
@@ -521,3 +522,138 @@ Section Readable.
     exact (Hno w j Hin).
   Qed.
 End Readable.
+
+(** * The Host forms of the property text, for all hosts and ports *)
+Lemma contains_app c a b : contains c (a ++ b) = contains c a || contains c b.
+Proof. unfold contains. apply existsb_app. Qed.
+Lemma contains_cons c x s : contains c (x :: s) = (c =? x) || contains c s.
+Proof. reflexivity. Qed.
+
+Lemma last_index_app_sep c a b : contains c b = false ->
+  last_index_of c (a ++ c :: b) = Some (length a).
+Proof.
+  intros Hb. induction a as [|x a IH]; cbn [app last_index_of length].
+  - rewrite (last_index_none _ _ Hb), N.eqb_refl. reflexivity.
+  - rewrite IH. reflexivity.
+Qed.
+Lemma last_index_some_app c a b i : last_index_of c b = Some i -> last_index_of c (a ++ b) = Some (length a + i)%nat.
+Proof.
+  intros Hb. induction a as [|x a IH]; cbn [app last_index_of length]; [exact Hb|]. rewrite IH. reflexivity.
+Qed.
+Lemma index_of_app_sep c a b : contains c a = false -> index_of c (a ++ c :: b) = Some (length a).
+Proof.
+  induction a as [|x a IH]; cbn [app index_of length]; intros Ha.
+  - rewrite N.eqb_refl. reflexivity.
+  - rewrite contains_cons in Ha. apply orb_false_iff in Ha. destruct Ha as [H1 H2].
+    rewrite N.eqb_sym, H1, (IH H2). reflexivity.
+Qed.
+Lemma firstn_app_exact {A} (a b : list A) : firstn (length a) (a ++ b) = a.
+Proof. induction a as [|x a IH]; cbn; [destruct b; reflexivity|rewrite IH; reflexivity]. Qed.
+Lemma skipn_app_exact {A} (a b : list A) : skipn (length a) (a ++ b) = b.
+Proof. induction a as [|x a IH]; cbn; [reflexivity|exact IH]. Qed.
+Lemma ends_with_snoc c s : ends_with c (s ++ [c]) = true.
+Proof. unfold ends_with. rewrite rev_app_distr. cbn. apply N.eqb_refl. Qed.
+
+Definition plain (s : str) : Prop :=
+  contains c_colon s = false /\ contains c_lbr s = false /\ contains c_rbr s = false.
+Definition nobr (s : str) : Prop := contains c_lbr s = false /\ contains c_rbr s = false.
+
+Lemma head_not_lbr s : contains c_lbr s = false -> match s with x :: _ => x =? c_lbr | [] => false end = false.
+Proof.
+  destruct s as [|x s]; [reflexivity|]. rewrite contains_cons. intros H. apply orb_false_iff in H.
+  destruct H as [H _]. rewrite N.eqb_sym. exact H.
+Qed.
+
+Lemma challenge_host_nobracket h : contains c_lbr h = false ->
+  (match h with
+   | x :: r => if (x =? c_lbr) && ends_with c_rbr h && contains c_colon h then removelast r else h
+   | [] => h
+   end) = h.
+Proof. intros H. destruct h as [|x r]; [reflexivity|]. pose proof (head_not_lbr _ H) as Hx. cbn in Hx. rewrite Hx. reflexivity. Qed.
+
+(** "host:port" *)
+Lemma split_host_port_plain h p : plain h -> plain p ->
+  split_host_port (h ++ c_colon :: p) = Some (h, p).
+Proof.
+  intros (Hc & Hl & Hr) (Pc & Pl & Pr). unfold split_host_port.
+  rewrite (last_index_app_sep c_colon h p Pc).
+  assert (Hhd : match h ++ c_colon :: p with x :: _ => x =? c_lbr | [] => false end = false).
+  { apply head_not_lbr. rewrite contains_app, contains_cons, Hl, Pl. reflexivity. }
+  destruct (h ++ c_colon :: p) as [|x rest] eqn:E; [destruct h; discriminate|]. rewrite Hhd. rewrite <- E.
+  rewrite firstn_app_exact, Hc.
+  rewrite !contains_app, !contains_cons, Hl, Pl, Hr, Pr. cbn [orb N.eqb c_lbr c_rbr c_colon Pos.eqb].
+  replace (S (length h)) with (length (h ++ [c_colon])) by (rewrite app_length; cbn; lia).
+  replace (h ++ c_colon :: p) with ((h ++ [c_colon]) ++ p) by (rewrite <- app_assoc; reflexivity).
+  rewrite skipn_app_exact. reflexivity.
+Qed.
+Theorem challenge_host_port h p : plain h -> plain p -> challenge_host (h ++ c_colon :: p) = h.
+Proof.
+  intros Hh Hp. unfold challenge_host, host_only. rewrite (split_host_port_plain h p Hh Hp).
+  apply challenge_host_nobracket. apply Hh.
+Qed.
+
+(** "[v6]" without port: brackets removed (the case an ACME server sends for an IPv6 identifier) *)
+Theorem challenge_host_bracket h : nobr h -> contains c_colon h = true ->
+  challenge_host (c_lbr :: h ++ [c_rbr]) = h.
+Proof.
+  intros (Hl & Hr) Hc. unfold challenge_host, host_only.
+  assert (Hsp : split_host_port (c_lbr :: h ++ [c_rbr]) = None).
+  { unfold split_host_port. destruct (last_index_of c_colon (c_lbr :: h ++ [c_rbr])) as [i|]; [|reflexivity].
+    cbn [N.eqb c_lbr Pos.eqb]. change (c_lbr :: h ++ [c_rbr]) with ((c_lbr :: h) ++ c_rbr :: []).
+    rewrite index_of_app_sep by (rewrite contains_cons, Hr; reflexivity).
+    rewrite app_length. cbn [length]. replace (S (length h) + 1)%nat with (S (S (length h))) by lia.
+    rewrite Nat.eqb_refl. reflexivity. }
+  rewrite Hsp. cbn [N.eqb c_lbr Pos.eqb andb].
+  change (c_lbr :: h ++ [c_rbr]) with ((c_lbr :: h) ++ [c_rbr]). rewrite ends_with_snoc.
+  rewrite contains_app, contains_cons, Hc. cbn [orb andb N.eqb c_colon c_lbr Pos.eqb].
+  apply removelast_last.
+Qed.
+
+(** "[v6]:port" *)
+Theorem challenge_host_bracket_port h p : nobr h -> plain p ->
+  challenge_host (c_lbr :: h ++ c_rbr :: c_colon :: p) = h.
+Proof.
+  intros (Hl & Hr) (Pc & Pl & Pr). unfold challenge_host, host_only.
+  assert (Hsp : split_host_port (c_lbr :: h ++ c_rbr :: c_colon :: p) = Some (h, p)).
+  { set (hp := c_lbr :: h ++ c_rbr :: c_colon :: p).
+    assert (F1 : last_index_of c_colon hp = Some (S (S (length h)))).
+    { unfold hp. replace (c_lbr :: h ++ c_rbr :: c_colon :: p) with ((c_lbr :: h ++ [c_rbr]) ++ c_colon :: p)
+        by (cbn; rewrite <- app_assoc; reflexivity).
+      rewrite (last_index_app_sep c_colon _ p Pc). f_equal. cbn [length]. rewrite app_length. cbn. lia. }
+    assert (F2 : index_of c_rbr hp = Some (S (length h))).
+    { unfold hp. change (c_lbr :: h ++ c_rbr :: c_colon :: p) with ((c_lbr :: h) ++ c_rbr :: c_colon :: p).
+      rewrite index_of_app_sep by (rewrite contains_cons, Hr; reflexivity). reflexivity. }
+    assert (F3 : Nat.eqb (S (S (length h))) (length hp) = false).
+    { apply Nat.eqb_neq. unfold hp. cbn [length]. rewrite app_length. cbn [length]. lia. }
+    assert (F4 : skipn 1 hp = h ++ c_rbr :: c_colon :: p) by reflexivity.
+    assert (F5 : skipn (S (S (length h))) hp = c_colon :: p).
+    { unfold hp. rewrite skipn_cons.
+      replace (S (length h)) with (length (h ++ [c_rbr])) by (rewrite app_length; cbn; lia).
+      replace (h ++ c_rbr :: c_colon :: p) with ((h ++ [c_rbr]) ++ c_colon :: p) by (rewrite <- app_assoc; reflexivity).
+      apply skipn_app_exact. }
+    assert (F6 : skipn (S (S (S (length h)))) hp = p).
+    { unfold hp. rewrite skipn_cons.
+      replace (S (S (length h))) with (length (h ++ [c_rbr; c_colon])) by (rewrite app_length; cbn; lia).
+      replace (h ++ c_rbr :: c_colon :: p) with ((h ++ [c_rbr; c_colon]) ++ p) by (rewrite <- app_assoc; reflexivity).
+      apply skipn_app_exact. }
+    unfold split_host_port. rewrite F1. unfold hp at 1. cbn [N.eqb c_lbr Pos.eqb]. fold hp.
+    rewrite F2, F3, Nat.eqb_refl, F4, F5, F6.
+    replace (S (length h) - 1)%nat with (length h) by lia. rewrite firstn_app_exact.
+    rewrite contains_app, !contains_cons, Hl, Pl, Pr. reflexivity. }
+  rewrite Hsp. apply challenge_host_nobracket. exact Hl.
+Qed.
+
+(** * strings.EqualFold on ASCII: equality up to letter case *)
+Lemma tbl_feq_nil x y : tbl_feq [] x y = (ascii_lower x =? ascii_lower y).
+Proof.
+  unfold tbl_feq, ascii_lower. cbn [existsb]. rewrite orb_false_r.
+  destruct (is_upper_ascii x) eqn:Ux, (is_upper_ascii y) eqn:Uy; unfold is_upper_ascii in *; lia.
+Qed.
+Theorem equal_fold_ascii a b : equal_fold (tbl_feq []) a b = true <-> map ascii_lower a = map ascii_lower b.
+Proof.
+  revert b. induction a as [|x a IH]; intros [|y b]; cbn [equal_fold map]; try (split; [discriminate|discriminate]).
+  - split; reflexivity.
+  - rewrite andb_true_iff, tbl_feq_nil, N.eqb_eq, IH. split.
+    + intros [-> ->]. reflexivity.
+    + intros H; injection H; auto.
+Qed.
